@@ -305,3 +305,46 @@ pub fn c09_q_set_nonce_and_rekey() {
         },
     }
 }
+
+/// Sizes around the 65535-byte limit (lengths symbolic in 0..=66000, data not moved by the oracle cipher): a transport
+/// write / read that fails for ANY reason leaves both nonces where they were and never reached the cipher; one that
+/// succeeds moves exactly its own counter by one. (The small-buffer harnesses above cannot reach the oversize refusals.)
+const BIG: usize = 66000;
+static ZEROS: [u8; BIG] = [0u8; BIG];
+
+#[kani::proof]
+#[kani::unwind(20)]
+pub fn c09_q_stateful_big_sizes() {
+    unsafe {
+        O_COPY = false;
+    }
+    let initiator: bool = kani::any();
+    let n_i: u64 = kani::any();
+    let n_r: u64 = kani::any();
+    let mut ts = stateful(initiator, false, n_i, n_r);
+    let (n_send, n_recv) = if initiator { (n_i, n_r) } else { (n_r, n_i) };
+    let len: usize = kani::any();
+    let cap: usize = kani::any();
+    kani::assume(len <= BIG && cap <= BIG);
+    let mut buf = [0u8; BIG];
+    let write: bool = kani::any();
+    let r = if write { ts.write_message(&ZEROS[..len], &mut buf[..cap]) } else { ts.read_message(&ZEROS[..len], &mut buf[..cap]) };
+    kani::cover!(r.is_ok() && write, "C09 big write ok reachable");
+    kani::cover!(r == Err(Error::Input) && len > 65535 && cap > 65535, "C09 oversize refusal with a large buffer reachable");
+    unsafe {
+        assert!(!O_SAW_MAX[1] && !O_SAW_MAX[2], "C09: reserved nonce 2^64-1 passed to the cipher");
+    }
+    if r.is_ok() {
+        if write {
+            assert!(ts.sending_nonce() == n_send + 1 && ts.receiving_nonce() == n_recv, "C09: a successful write must move the sending nonce by exactly one and nothing else");
+        } else {
+            assert!(ts.receiving_nonce() == n_recv + 1 && ts.sending_nonce() == n_send, "C09: a successful read must move the receiving nonce by exactly one and nothing else");
+        }
+    } else {
+        assert!(ts.sending_nonce() == n_send && ts.receiving_nonce() == n_recv, "C09: a failed transport call moved a nonce");
+        // a read the cipher itself rejects is the one failure that legitimately reaches the cipher
+        if r != Err(Error::Decrypt) {
+            assert!(no_cipher_calls(), "C09: a refused transport call reached the cipher");
+        }
+    }
+}
